@@ -163,4 +163,19 @@ var plans = map[string]Plan{
 			"inputs are constants (i2r has no handshake); output identity is the declaration order of bondgo.Output variables",
 		},
 	},
+	"C11": {
+		Pkg: "c11",
+		Runs: []Run{
+			{Test: "^TestProps$/^machine$", Checks: checks(400, 8000), Shards: shards(2, 4)},
+			{Test: "^TestProps$/^bondmachine$", Checks: checks(250, 5000), Shards: shards(3, 8)},
+			{Test: "^TestProps$/^handshake$", Checks: checks(400, 7000), Shards: shards(2, 4)},
+			{Test: "^TestSweep$", NoRapid: true, Shards: shards(1, 1)},
+		},
+		Assumptions: []string{
+			"load = the CLI sequence json.Marshal(Jsoner()) / json.Unmarshal / Dejsoner / Init; a loud refusal to load is an acceptable outcome, a silent drop is not",
+			"nil slice = empty slice; opcodes compared by name, type and registered identity; caches CpID/SharedHDLOps/Tag exempt only when a machine saved after Write_verilog is compared with a copy that has not been through it",
+			"HDL regeneration on a sampled share, flavour iverilog, empty simbox; machines with an fxp opcode never go through HDL (the generator reads /tmp/fxpcode and calls log.Fatal when absent); barriers are attached and vtextmem boxes cover the attached processors (HDL preconditions, C18's business)",
+			"FloPoCo opcodes are out of reach (flopoco binary absent)",
+		},
+	},
 }
